@@ -120,7 +120,7 @@ func VerifC45OMulSmall() {
 	vr.Reach("done")
 }
 
-//verif:harness prop=C45 reach=done
+//verif:harness prop=C45 reach=done merge=0
 func VerifC45Saturate() {
 	a, b := vr.U64("a"), vr.U64("b")
 	max := vr.ZU(^uint64(0))
